@@ -106,6 +106,10 @@ def z_ite(c, a, b):
         return a
     if isinstance(a, (tuple, list)) and isinstance(b, (tuple, list)) and len(a) == len(b):
         return type(a)(z_ite(c, x, y) for x, y in zip(a, b))
+    if hasattr(a, "hv_ite"):
+        return a.hv_ite(c, b, False)
+    if hasattr(b, "hv_ite"):
+        return b.hv_ite(c, a, True)
     if a is None or b is None:
         raise Unsupported("ite with None branch")
     za, zb = to_z3(a), to_z3(b)
